@@ -79,4 +79,14 @@ var targets = []target{
 		},
 		Doc: "the cache read GetIngressClass is the field `getIngressClass` of the view (result: object pointer, error);",
 	},
+	{
+		Prop: "C19", File: "pkg/converters/ingress/annotations/backend.go", Func: "firstToken", Lean: "firstToken",
+		Sig:     "(s : List Nat) : Option (List Nat)",
+		Partial: true, Fuel: []string{"(s.length + 1)", "(s.length + 1)"},
+		Syms: map[string]string{
+			"asciiSpace[s[start]]": "(GoLib.lookupTbl Facts.c19AsciiSpaceKeys Facts.c19AsciiSpaceVals (GoLib.byteAt s start))",
+			"asciiSpace[s[end]]":   "(GoLib.lookupTbl Facts.c19AsciiSpaceKeys Facts.c19AsciiSpaceVals (GoLib.byteAt s end'))",
+		},
+		Doc: "strings are byte lists; `asciiSpace` is the table the fact extractor reads from the same file; loops get fuel len(s)+1;",
+	},
 }
